@@ -8,6 +8,10 @@
 //!   raced    : tell(7) loses a biased select! before being polled, tell(8)   -> [8]
 //!   late     : (timeout variants) create x_with_timeout(9, 50 ms), sleep 300 ms, then await it:
 //!              the operation - and with it its deadline - begins at the first poll -> Ok
+//!   overdue  : (timeout variants) poll x_with_timeout(10, 60 ms) once - the actor answers within
+//!              microseconds -, keep the thread busy for 250 ms, then await it: the operation had
+//!              completed long before its deadline, so the result is Ok however late it is read
+//!              (C10: Timeout if and only if the deadline passed FIRST)
 use rsactor::{Actor, ActorRef, ActorWeak, AskHandler, Message, TellHandler};
 use std::sync::{Arc, Mutex};
 
@@ -122,8 +126,21 @@ async fn run(name: &str, mk: impl Fn(&ActorRef<L>) -> Route) {
         } else {
             true
         };
-        println!("{name}{} unpolled={unpolled} deferred={deferred} raced={raced} oks={}{}{} late={}",
-                 if timed { "_timeout" } else { "" }, ok1 as u8, ok2 as u8, ok8 as u8, late as u8);
+        // overdue
+        let overdue = if timed {
+            let mut f10 = route.send_within(10, std::time::Duration::from_millis(60));
+            let first = futures::poll!(f10.as_mut());
+            settle().await; // the actor handles and replies
+            std::thread::sleep(std::time::Duration::from_millis(250));
+            match first {
+                std::task::Poll::Ready(ok) => ok,
+                std::task::Poll::Pending => f10.await,
+            }
+        } else {
+            true
+        };
+        println!("{name}{} unpolled={unpolled} deferred={deferred} raced={raced} oks={}{}{} late={} overdue={}",
+                 if timed { "_timeout" } else { "" }, ok1 as u8, ok2 as u8, ok8 as u8, late as u8, overdue as u8);
         drop(route);
         let _ = r.kill();
         let _ = j.await;
